@@ -17,6 +17,15 @@
 #include "varintPFOR.h"
 #include "varintRLE.h"
 
+/* output-only metadata structs are poisoned before the call so that an unwritten field is
+ * distinguishable from a written one (0xEE pattern; additionally MSan-poisoned under MSan) */
+#if VERIF_MSAN
+#include <sanitizer/msan_interface.h>
+#define POISON(p, n) (memset((p), 0xEE, (n)), __msan_allocated_memory((p), (n)))
+#else
+#define POISON(p, n) memset((p), 0xEE, (n))
+#endif
+
 /* what the encoder reported about its own output */
 typedef struct {
     size_t ret;      /* encoder return value (bytes) */
@@ -98,7 +107,7 @@ static size_t b_pfor_t(const uint64_t *a, size_t n, int t) { varintPFORMeta m; m
 static size_t b_pfor90(const uint64_t *a, size_t n) { return b_pfor_t(a, n, 90); }
 static size_t b_pfor95(const uint64_t *a, size_t n) { return b_pfor_t(a, n, 95); }
 static size_t b_pfor99(const uint64_t *a, size_t n) { return b_pfor_t(a, n, 99); }
-static size_t e_pfor_t(uint8_t *d, const uint64_t *a, size_t n, encinfo_t *i, int t) { memset(&i->pforMeta, 0xEE, sizeof i->pforMeta); i->has_meta = true; return varintPFOREncode(d, a, (uint32_t)n, (uint32_t)t, &i->pforMeta); }
+static size_t e_pfor_t(uint8_t *d, const uint64_t *a, size_t n, encinfo_t *i, int t) { POISON(&i->pforMeta, sizeof i->pforMeta); i->has_meta = true; return varintPFOREncode(d, a, (uint32_t)n, (uint32_t)t, &i->pforMeta); }
 static size_t e_pfor90(uint8_t *d, const uint64_t *a, size_t n, encinfo_t *i) { return e_pfor_t(d, a, n, i, 90); }
 static size_t e_pfor95(uint8_t *d, const uint64_t *a, size_t n, encinfo_t *i) { return e_pfor_t(d, a, n, i, 95); }
 static size_t e_pfor99(uint8_t *d, const uint64_t *a, size_t n, encinfo_t *i) { return e_pfor_t(d, a, n, i, 99); }
@@ -143,8 +152,8 @@ static size_t c_dict_into(const uint8_t *s, size_t nb, const encinfo_t *i, void 
 /* ------------------------------------------------------------------ RLE */
 static size_t b_rle_max(const uint64_t *a, size_t n) { (void)a; return varintRLEMaxSize(n); }
 static size_t b_rle_size(const uint64_t *a, size_t n) { return varintRLESize(a, n); }
-static size_t e_rle(uint8_t *d, const uint64_t *a, size_t n, encinfo_t *i) { memset(&i->rleMeta, 0xEE, sizeof i->rleMeta); i->has_meta = true; return varintRLEEncode(d, a, n, &i->rleMeta); }
-static size_t e_rle_hdr(uint8_t *d, const uint64_t *a, size_t n, encinfo_t *i) { memset(&i->rleMeta, 0xEE, sizeof i->rleMeta); i->has_meta = true; return varintRLEEncodeWithHeader(d, a, n, &i->rleMeta); }
+static size_t e_rle(uint8_t *d, const uint64_t *a, size_t n, encinfo_t *i) { POISON(&i->rleMeta, sizeof i->rleMeta); i->has_meta = true; return varintRLEEncode(d, a, n, &i->rleMeta); }
+static size_t e_rle_hdr(uint8_t *d, const uint64_t *a, size_t n, encinfo_t *i) { POISON(&i->rleMeta, sizeof i->rleMeta); i->has_meta = true; return varintRLEEncodeWithHeader(d, a, n, &i->rleMeta); }
 static size_t d_rle(const uint8_t *s, size_t nb, const encinfo_t *i, uint64_t *o, size_t n) { (void)nb; (void)i; return varintRLEDecode(s, o, n); }
 static size_t d_rle_hdr(const uint8_t *s, size_t nb, const encinfo_t *i, uint64_t *o, size_t n) { (void)nb; (void)i; return varintRLEDecodeWithHeader(s, o, n); }
 static bool g_rle(const uint8_t *s, size_t nb, const encinfo_t *i, size_t n, size_t idx, uint64_t *v) { (void)nb; (void)i; (void)n; *v = varintRLEGetAt(s, idx); return true; }
@@ -167,8 +176,8 @@ static size_t c_rle_hdr(const uint8_t *s, size_t nb, const encinfo_t *i, void *o
 /* ---------------------------------------------------------------- Elias */
 static size_t b_gamma(const uint64_t *a, size_t n) { (void)a; return varintEliasGammaMaxBytes(n); }
 static size_t b_edelta(const uint64_t *a, size_t n) { (void)a; return varintEliasDeltaMaxBytes(n); }
-static size_t e_gamma(uint8_t *d, const uint64_t *a, size_t n, encinfo_t *i) { memset(&i->eliasMeta, 0xEE, sizeof i->eliasMeta); i->has_meta = true; size_t r = varintEliasGammaEncodeArray(d, a, n, &i->eliasMeta); i->bits = i->eliasMeta.totalBits; return r; }
-static size_t e_edelta(uint8_t *d, const uint64_t *a, size_t n, encinfo_t *i) { memset(&i->eliasMeta, 0xEE, sizeof i->eliasMeta); i->has_meta = true; size_t r = varintEliasDeltaEncodeArray(d, a, n, &i->eliasMeta); i->bits = i->eliasMeta.totalBits; return r; }
+static size_t e_gamma(uint8_t *d, const uint64_t *a, size_t n, encinfo_t *i) { POISON(&i->eliasMeta, sizeof i->eliasMeta); i->has_meta = true; size_t r = varintEliasGammaEncodeArray(d, a, n, &i->eliasMeta); i->bits = i->eliasMeta.totalBits; return r; }
+static size_t e_edelta(uint8_t *d, const uint64_t *a, size_t n, encinfo_t *i) { POISON(&i->eliasMeta, sizeof i->eliasMeta); i->has_meta = true; size_t r = varintEliasDeltaEncodeArray(d, a, n, &i->eliasMeta); i->bits = i->eliasMeta.totalBits; return r; }
 static size_t d_gamma(const uint8_t *s, size_t nb, const encinfo_t *i, uint64_t *o, size_t n) { (void)nb; return varintEliasGammaDecodeArray(s, i->bits, o, n); }
 static size_t d_edelta(const uint8_t *s, size_t nb, const encinfo_t *i, uint64_t *o, size_t n) { (void)nb; return varintEliasDeltaDecodeArray(s, i->bits, o, n); }
 static size_t c_gamma(const uint8_t *s, size_t nb, const encinfo_t *i, void *o, size_t cap, size_t n) { (void)nb; (void)n; return varintEliasGammaDecodeArray(s, i->bits, o, cap); }
@@ -179,7 +188,7 @@ static size_t b_bp(const uint64_t *a, size_t n) { (void)a; return varintBP128Max
 #define BP32(NAME, ENC, DEC)                                                                                           \
     static size_t e_##NAME(uint8_t *d, const uint64_t *a, size_t n, encinfo_t *i) {                                   \
         uint32_t *p = to32(a, n);                                                                                      \
-        memset(&i->bpMeta, 0xEE, sizeof i->bpMeta);                                                                    \
+        POISON(&i->bpMeta, sizeof i->bpMeta);                                                                    \
         i->has_meta = true;                                                                                            \
         size_t r = ENC(d, p, n, &i->bpMeta);                                                                           \
         free(p);                                                                                                       \
@@ -199,19 +208,19 @@ static size_t b_bp(const uint64_t *a, size_t n) { (void)a; return varintBP128Max
     }
 BP32(bp32, varintBP128Encode32, varintBP128Decode32)
 BP32(bpd32, varintBP128DeltaEncode32, varintBP128DeltaDecode32)
-static size_t e_bp64(uint8_t *d, const uint64_t *a, size_t n, encinfo_t *i) { memset(&i->bpMeta, 0xEE, sizeof i->bpMeta); i->has_meta = true; return varintBP128Encode64(d, a, n, &i->bpMeta); }
+static size_t e_bp64(uint8_t *d, const uint64_t *a, size_t n, encinfo_t *i) { POISON(&i->bpMeta, sizeof i->bpMeta); i->has_meta = true; return varintBP128Encode64(d, a, n, &i->bpMeta); }
 static size_t d_bp64(const uint8_t *s, size_t nb, const encinfo_t *i, uint64_t *o, size_t n) { (void)nb; (void)i; return varintBP128Decode64(s, o, n); }
 static size_t c_bp64(const uint8_t *s, size_t nb, const encinfo_t *i, void *o, size_t cap, size_t n) { (void)nb; (void)i; (void)n; return varintBP128Decode64(s, o, cap); }
-static size_t e_bpd64(uint8_t *d, const uint64_t *a, size_t n, encinfo_t *i) { memset(&i->bpMeta, 0xEE, sizeof i->bpMeta); i->has_meta = true; return varintBP128DeltaEncode64(d, a, n, &i->bpMeta); }
+static size_t e_bpd64(uint8_t *d, const uint64_t *a, size_t n, encinfo_t *i) { POISON(&i->bpMeta, sizeof i->bpMeta); i->has_meta = true; return varintBP128DeltaEncode64(d, a, n, &i->bpMeta); }
 static size_t d_bpd64(const uint8_t *s, size_t nb, const encinfo_t *i, uint64_t *o, size_t n) { (void)nb; (void)i; return varintBP128DeltaDecode64(s, o, n); }
 static size_t c_bpd64(const uint8_t *s, size_t nb, const encinfo_t *i, void *o, size_t cap, size_t n) { (void)nb; (void)i; (void)n; return varintBP128DeltaDecode64(s, o, cap); }
 
 /* ------------------------------------------------------------- adaptive */
 static size_t b_adaptive(const uint64_t *a, size_t n) { (void)a; return varintAdaptiveMaxSize(n); }
-static size_t e_ad_auto(uint8_t *d, const uint64_t *a, size_t n, encinfo_t *i) { memset(&i->adMeta, 0xEE, sizeof i->adMeta); i->has_meta = true; return varintAdaptiveEncode(d, a, n, &i->adMeta); }
+static size_t e_ad_auto(uint8_t *d, const uint64_t *a, size_t n, encinfo_t *i) { POISON(&i->adMeta, sizeof i->adMeta); i->has_meta = true; return varintAdaptiveEncode(d, a, n, &i->adMeta); }
 #define ADFORCE(NAME, TYPE)                                                                                            \
     static size_t e_ad_##NAME(uint8_t *d, const uint64_t *a, size_t n, encinfo_t *i) {                                \
-        memset(&i->adMeta, 0xEE, sizeof i->adMeta);                                                                    \
+        POISON(&i->adMeta, sizeof i->adMeta);                                                                    \
         i->has_meta = true;                                                                                            \
         return varintAdaptiveEncodeWith(d, a, n, TYPE, &i->adMeta);                                                    \
     }
